@@ -171,7 +171,10 @@ def generate(rng, tier, index):
         ops.append({"op": "release"})
     # the export ends by close(), or by leaving a with-block - normally or because the record source raised
     ops.append({"op": "close", "how": rng.choice(["close", "close", "exit", "raise_exit"])})
-    return {"batch": batch, "alt_batch": alt, "pool": pool, "ops": ops, "mode": mode}
+    # how the writer is constructed and what the database file is called: neither may matter
+    via = rng.choice(["direct", "direct", "uri", "split"])
+    dbname = rng.choice(["t.db", "t.db", "t%41.db", "what?.db", "part#1.db", "100%25done.db"]) if via == "direct" else rng.choice(["t.db", "t.db", "t%41.db"])
+    return {"batch": batch, "alt_batch": alt, "pool": pool, "ops": ops, "mode": mode, "via": via, "dbname": dbname}
 
 
 # -- expected raw SQL cells (independent of the adapter) ------------------------------------------
@@ -216,7 +219,9 @@ class Workload:
         self.batch = batch
         self.dir = os.path.join(scratch, tag)
         os.makedirs(self.dir)
-        self.path = os.path.join(self.dir, "t.db")
+        self.via = plan.get("via", "direct")
+        self.dbname = plan.get("dbname", "t.db")
+        self.path = os.path.join(self.dir, self.dbname)
         self.tag = tag
         self.looks = looks
         self.pool = Pool(plan["pool"])
@@ -242,9 +247,29 @@ class Workload:
             self.viols.append(v)
 
     # -- the writer ---------------------------------------------------------------------------
+    def make_writer(self):
+        """The three documented ways to a SQLite writer with a batch size."""
+        if self.via == "uri":
+            from flow.record import RecordWriter
+
+            self.w.probe("writer-via-uri")
+            return RecordWriter("sqlite://%s?batch_size=%d" % (self.path, self.batch))
+        if self.via == "split":
+            from flow.record import RecordWriter
+
+            # what `rdump --split N -w sqlite://...` builds; the limit is never reached here, so there is one part
+            self.w.probe("writer-via-split")
+            base = os.path.join(self.dir, self.dbname)
+            wr = RecordWriter("split+sqlite://%s?count=1000000&batch_size=%d" % (base, self.batch))
+            parts = sorted(f for f in os.listdir(self.dir) if f.endswith(".db"))
+            if len(parts) == 1:
+                self.path = os.path.join(self.dir, parts[0])
+            return wr
+        return self.SQ.SqliteWriter(self.path, batch_size=self.batch)
+
     def run(self):
         w = self.w
-        self.writer = self.SQ.SqliteWriter(self.path, batch_size=self.batch)
+        self.writer = self.make_writer()
         w.keep.append(self.writer)
         for oi, op in enumerate(self.plan["ops"]):
             k = op["op"]
@@ -262,7 +287,7 @@ class Workload:
             elif k == "reopen":
                 if self.holder is None and not self.busy:
                     if self.call("close", self.writer.close, commits=True):
-                        self.writer = self.SQ.SqliteWriter(self.path, batch_size=self.batch)
+                        self.writer = self.make_writer()
                         w.keep.append(self.writer)
                         self.seen = set()
                         self.count = 0
@@ -640,7 +665,7 @@ class Workload:
             return
         # two live iterators on one reader object (small fetch batches): neither may lose rows to the other
         try:
-            rd2 = self.SQ.SqliteReader(self.path, batch_size=2)
+            rd2 = self.SQ.SqliteReader(self.path, batch_size=1 + len(self.rows) % 2)
             it1 = iter(rd2)
             head = [r for _, r in zip(range(1), it1)]
             full = sum(1 for _ in rd2)
@@ -648,7 +673,7 @@ class Workload:
             rd2.con.close()
             total = sum(len(v) for v in back.values())
             if full != total or len(head) + rest != total:
-                self.add(_viol("C18.values", "two live iterators on one SqliteReader (batch_size=2): the inner pass yields %d and the outer %d of %d records" % (full, len(head) + rest, total)))
+                self.add(_viol("C18.values", "two live iterators on one SqliteReader (batch_size 1 or 2): the inner pass yields %d and the outer %d of %d records" % (full, len(head) + rest, total)))
         except Exception as e:  # noqa: BLE001
             self.add(_viol("C18.values", "two live iterators on one SqliteReader raised %s: %s" % (type(e).__name__, short(str(e), 120))))
         per = collections.OrderedDict()
